@@ -24,6 +24,7 @@
  */
 #include <stdio.h>
 #include <stdlib.h>
+#include <math.h>
 #include <string.h>
 #include "particle.h"
 #include "rebound.h"
@@ -225,6 +226,17 @@ finish_fields:
     }
     reb_tree_delete(r);
     if (r->gravity==REB_GRAVITY_TREE || r->collision==REB_COLLISION_TREE || r->collision==REB_COLLISION_LINETREE){
+        // Particles which were flagged for removal (y set to NaN, see reb_simulation_remove_particle) 
+        // but had not yet been removed by a tree update when the snapshot was taken, are removed now.
+        // They cannot be added to the tree.
+        for (unsigned int l=0;l<r->N;l++){
+            if (isnan(r->particles[l].y)){
+                r->N--;
+                r->particles[l] = r->particles[r->N];
+                l--;
+            }
+        }
+        r->N_allocated = r->N;
         for (unsigned int l=0;l<r->N_allocated;l++){
             reb_tree_add_particle_to_tree(r, l);
         }
